@@ -3597,6 +3597,7 @@ spmatrix_ass_subscr(spmatrix* self, PyObject* args, PyObject* value)
 #else
     i = PyInt_AsLong(args);
 #endif
+    if (i == -1 && PyErr_Occurred()) return -1;
     if ( i<-SP_LGT(self) || i >= SP_LGT(self) )
       PY_ERR_INT(PyExc_IndexError, "index out of range");
 
